@@ -107,7 +107,9 @@ def beyond_256():
     """graphs with more than 256 nodes / degrees above 255 (narrow counters, CPython's small-integer cache)."""
     g = {'K260': _und(260, [(i, j) for i in range(260) for j in range(i + 1, 260)]),
          'star300': _und(300, [(0, i) for i in range(1, 300)]),
-         'path300': _und(300, [(i, i + 1) for i in range(299)])}
+         'path300': _und(300, [(i, i + 1) for i in range(299)]),
+         # a hub with 300 leaves and a 140-node chain: one very large degree together with very long geodesics
+         'broom441': _und(441, [(0, i) for i in range(1, 301)] + [(0, 301)] + [(i, i + 1) for i in range(301, 440)])}
     return sorted(g.items())
 
 
